@@ -164,6 +164,11 @@ func runC01_3(c *Ctx) {
 
 // heldAt: is mutex field (struct n, index idx) locked (Lock dominates, no Unlock on a path between) at instruction at?
 func heldAt(p *Prog, fn *ssa.Function, n *types.Named, idx int, at ssa.Instruction) bool {
+	return heldAtMode(p, fn, n, idx, at, false)
+}
+
+// heldAtMode: with exclusive == true only Lock (not RLock) counts.
+func heldAtMode(p *Prog, fn *ssa.Function, n *types.Named, idx int, at ssa.Instruction, exclusive bool) bool {
 	var locks, unlocks []ssa.Instruction
 	Instrs(fn, func(i ssa.Instruction) {
 		call, ok := i.(*ssa.Call)
@@ -171,8 +176,12 @@ func heldAt(p *Prog, fn *ssa.Function, n *types.Named, idx int, at ssa.Instructi
 			return
 		}
 		switch CalleeObj(call).Name() {
-		case "Lock", "RLock":
+		case "Lock":
 			locks = append(locks, i)
+		case "RLock":
+			if !exclusive {
+				locks = append(locks, i)
+			}
 		case "Unlock", "RUnlock":
 			unlocks = append(unlocks, i)
 		}
